@@ -305,6 +305,10 @@ theorem append_loop_kC20b {β τ : Type} (L : List PVal) (acc : List PVal) (t0 :
 
 /-! ### the `TagList` translations of `_core.py` on plain nodes -/
 
+/-- `isinstance(x, (A, B, C))` does not depend on the order of the tuple -/
+theorem isInstance_permC20b (v : PVal) {l l' : List String} (h : l.Perm l') : isInstance v l = isInstance v l' := by
+  cases v <;> simp only [isInstance] <;> exact h.any_eq
+
 /-- an item `_tagchilds_to_tagnodes` keeps as it is: a tag node (`is_tag_node`) that `flatten` neither unnests (a list, a
     tuple, a TagList) nor drops (None) and that is not a number — stated as exactly the tests the code makes -/
 def plainNodeC20b (v : PVal) : Bool :=
